@@ -403,8 +403,9 @@ class Run:
             "wall_s": round(self.wall, 2),
             "violations": nviol + sum(1 for p in probe_report if p.get("classified") == "violation"),
         }
-        os.makedirs(os.path.join(VERIF, "evidence"), exist_ok=True)
-        evpath = os.path.join(VERIF, "evidence", self.prop + ".json")
+        evdir = os.environ.get("VERIF_EVIDENCE_DIR") or os.path.join(VERIF, "evidence")   # redirected only for scratch experiments
+        os.makedirs(evdir, exist_ok=True)
+        evpath = os.path.join(evdir, self.prop + ".json")
         with open(evpath + ".tmp", "w") as f:
             json.dump(ev, f, indent=1, default=repr)
         os.replace(evpath + ".tmp", evpath)
